@@ -1,4 +1,58 @@
 From Coq Require Import ZArith List.
-From PV Require Import Base.U64 C10.C10_Model C10.C10_Proofs.
-Theorem c10_placeholder : True. Proof. exact placeholder. Qed.
-Print Assumptions c10_placeholder.
+From PV Require Import Base.U64 C10.C10_Model C10.C10_Proofs C10.C10_ProofsLoop C10.C10_ProofsTop C10.C10_Engine C10.C10_ProofsEngine.
+Import ListNotations.
+Local Open Scope Z_scope.
+
+Theorem doio_stream_exact : forall o tmo flags lens sys wt ret k,
+  is_loop o = true -> wf_lens lens -> wf_script sys ->
+  run_op o tmo flags lens sys wt = Done (ret, k) ->
+  stream_exact o lens ret k.
+Proof. exact doio_stream_exact_lemma. Qed.
+Print Assumptions doio_stream_exact.
+
+Theorem recv_send_bounds : forall o tmo flags lens sys wt ret k,
+  is_loop o = false -> wf_lens lens -> wf_script sys ->
+  run_op o tmo flags lens sys wt = Done (ret, k) ->
+  once_exact o lens ret k.
+Proof. exact recv_send_bounds_lemma. Qed.
+Print Assumptions recv_send_bounds.
+
+Theorem doio_timeout_bound : forall o tmo flags lens sys wt ret k,
+  o <> OpSendfile -> wf_lens lens -> wf_script sys -> 0 <= tmo -> tmo <> MAX64 ->
+  run_op o tmo flags lens sys wt = Done (ret, k) ->
+  k_elapsed k <= tmo.
+Proof. exact doio_timeout_bound_lemma. Qed.
+Print Assumptions doio_timeout_bound.
+
+Theorem doio_terminates : forall o tmo flags lens sys wt,
+  wf_lens lens -> wf_script sys -> run_op o tmo flags lens sys wt <> OutOfFuel.
+Proof. exact doio_terminates_lemma. Qed.
+Print Assumptions doio_terminates.
+
+Theorem fire_only_registered : forall fd evs s d,
+  In d (fst (fire_one (fd, evs) s)) ->
+  fd <> s_evfd s /\ fd < s_size s /\
+  let entry := tab_get fd (s_tab s) in
+  (d = i_er entry /\ has evs ERRBIT = true /\ has (i_int entry) EV_ERROR = true) \/
+  (d = i_rd entry /\ has evs READBITS = true /\ has (i_int entry) EV_READ = true) \/
+  (d = i_wr entry /\ has evs WRITEBITS = true /\ has (i_int entry) EV_WRITE = true).
+Proof. exact fire_one_only_registered. Qed.
+Print Assumptions fire_only_registered.
+
+Theorem no_cross_talk_other_fd : forall t fd interest e s fd',
+  fd <> fd' -> fd_view fd' (wait_fail t fd interest e s) = fd_view fd' s.
+Proof. exact wait_fail_frame. Qed.
+Print Assumptions no_cross_talk_other_fd.
+
+Theorem batch_boundary_master_drains : forall rb s acc, snd (fst (process rb None s acc)) = [].
+Proof. exact process_master_drains. Qed.
+Print Assumptions batch_boundary_master_drains.
+
+Theorem batch_boundary_leftover_kept : forall rb room s acc, exists pre, rb = pre ++ snd (fst (process rb room s acc)).
+Proof. exact process_leftover_suffix. Qed.
+Print Assumptions batch_boundary_leftover_kept.
+
+Theorem engine_kernel_agree_refuted :
+  exists steps, forallb no_close steps = true /\ ~ engine_kernel_agree_at (run_engine steps).
+Proof. exact engine_kernel_agree_refuted_lemma. Qed.
+Print Assumptions engine_kernel_agree_refuted.
